@@ -359,6 +359,7 @@ class Sensor(Component):
             self.remaining_repair_time -= dt
             if self.remaining_repair_time <= Time(0):
                 self.not_fail()
+                self.remaining_repair_time = Time(0)
         elif self.state == SensorState.OK:
             self.draw_fail_status(dt)
 
